@@ -648,8 +648,14 @@ pub fn build_fast_check_type_graph<'a>(
         final_result.extend(fast_check_modules);
       }
     } else {
-      // use the items from the cache
-      final_result.extend(package.cache_items);
+      // use the items from the cache; cached diagnostics are reported
+      // on every entrypoint below, like those of a fresh analysis
+      for (specifier, result) in package.cache_items {
+        match result {
+          Ok(module) => final_result.push((specifier, Ok(module))),
+          Err(diagnostics) => errors.extend(diagnostics),
+        }
+      }
     }
 
     if !errors.is_empty() {
